@@ -8,6 +8,7 @@ to survive; every other one must be killed.  Exit 1 if an expectation is not met
 Evidence files are restored after each run.
 """
 import os
+VERIF = __import__("os").path.dirname(__import__("os").path.dirname(__import__("os").path.abspath(__file__)))  # this checkout, wherever it is
 import shutil
 import subprocess
 import sys
@@ -101,9 +102,9 @@ def main():
                 bad += 1
                 continue
             open(p, "w").write(s.replace(old, new))
-            ev = "/verif/evidence/%s.json" % cid
+            ev = VERIF + "/evidence/%s.json" % cid
             bak = open(ev).read() if os.path.exists(ev) else None
-            r = subprocess.run(["/verif/check", cid, "quick"], env=dict(os.environ, VERIF_REPO=d), capture_output=True, text=True)
+            r = subprocess.run([VERIF + "/check", cid, "quick"], env=dict(os.environ, VERIF_REPO=d), capture_output=True, text=True)
             if bak is not None:
                 open(ev, "w").write(bak)
             got = "K" if r.returncode == 1 else "S" if r.returncode == 0 else "?%d" % r.returncode
